@@ -137,4 +137,16 @@ PROPS = {
         ],
         "explanation": "span.rs under Verus with a loop invariant (unbounded number of spans)",
     },
+    "C03": {
+        "units": ["rc", "pers"],
+        "trusted_base": COMMON_TB + [
+            "units/pers/prelude.rs: Gc = std::rc::Rc (get_mut is Some iff sole reference - the contract proved for BiasedRc::get_mut/make_mut in unit rc), im/imbl collections as exact finite map/set/sequence models, reduced SteelVal",
+        ],
+        "assumptions": [
+            "kernel 1 (the uniqueness oracle: RcBox::has_unique_ref, BiasedRc::get_mut / make_mut / try_unwrap) is decided by the C05 check on the real steel-rc crate and re-run here",
+            "the compiler's last-use analysis and MOVEREADLOCAL (which decide whether a second reference exists at run time), im-lists internals, struct field updates and threads are NOT covered",
+            "collections of 2 entries with fixnum contents",
+        ],
+        "explanation": "uniqueness oracle (real steel-rc) + the primitives that mutate in place under it (verbatim extraction)",
+    },
 }
